@@ -29,39 +29,36 @@ theorem groupEvents_noTerm (g : Nat) (v : List GVal) (ng ns : List Nat) :
   unfold groupEvents at he
   split at he <;> simp at he <;> rcases he with rfl | rfl <;> rfl
 
-theorem finishGroupSuccess_events (σ : Static) (q : WQ) (g : Nat) (n : GroupNode) :
-    ∃ v ng ns, (finishGroupSuccess σ q g n).2.1 = groupEvents g v ng ns := by
-  unfold finishGroupSuccess
-  exact ⟨_, _, _, rfl⟩
+theorem finishGroupSuccess_noTerm (σ : Static) (q : WQ) (g : Nat) (n : GroupNode) :
+    NoTerm (finishGroupSuccess σ q g n).2.1 := groupEvents_noTerm _ _ _ _
+
+theorem successStep_noTerm (σ : Static) (acc : WQ × List WQEvent × List Nat × List Nat) (g : Nat)
+    (h : NoTerm acc.2.1) : NoTerm (successStep σ acc g).2.1 := by
+  unfold successStep
+  split
+  · simp only
+    split
+    · exact h.append (finishGroupSuccess_noTerm σ _ g _)
+    · exact h
+  · exact h
 
 theorem taskSuccess_noTerm (σ : Static) (q : WQ) (t : Nat) (r : TResult) :
     NoTerm (taskSuccess σ q t r).2 := by
   unfold taskSuccess
-  simp only
-  refine foldl_inv (fun acc : WQ × List WQEvent × List Nat × List Nat => NoTerm acc.2.1) _ _ _
-    NoTerm.nil ?_
-  intro acc g hacc
-  obtain ⟨q', evs, ngs, nss⟩ := acc
-  simp only
+  exact foldl_inv (fun acc : WQ × List WQEvent × List Nat × List Nat => NoTerm acc.2.1) _ _ _
+    NoTerm.nil (fun acc g h => successStep_noTerm σ acc g h)
+
+theorem failureStep_noTerm (σ : Static) (acc : WQ × List WQEvent) (g : Nat) (h : NoTerm acc.2) :
+    NoTerm (failureStep σ acc g).2 := by
+  unfold failureStep
   split
-  · split
-    · obtain ⟨v, ng, ns, hv⟩ := finishGroupSuccess_events σ
-        { q' with groupNodes := aset q'.groupNodes g { (‹GroupNode›) with pending := (‹GroupNode›).pending - 1 } } g
-        { (‹GroupNode›) with pending := (‹GroupNode›).pending - 1 }
-      simp only
-      exact hacc.append (hv ▸ groupEvents_noTerm g v ng ns)
-    · exact hacc
-  · exact hacc
+  · exact h.append (fun e he => by simp [finishGroupFailure] at he; subst he; rfl)
+  · exact h
 
 theorem taskFailure_noTerm (σ : Static) (q : WQ) (t : Nat) : NoTerm (taskFailure σ q t).2 := by
   unfold taskFailure
-  refine foldl_inv (fun acc : WQ × List WQEvent => NoTerm acc.2) _ _ _ NoTerm.nil ?_
-  intro acc g hacc
-  simp only
-  split
-  · simp only [finishGroupFailure]
-    exact hacc.append (fun e he => by simp at he; subst he; rfl)
-  · exact hacc
+  exact foldl_inv (fun acc : WQ × List WQEvent => NoTerm acc.2) _ _ _ NoTerm.nil
+    (fun acc g h => failureStep_noTerm σ acc g h)
 
 theorem streamItems_noTerm (σ : Static) (q : WQ) (s : Nat) (items : List IResult) (st : Bool) :
     NoTerm (streamItems σ q s items st).2 := by
